@@ -34,6 +34,11 @@ Proof. reflexivity. Qed.
 Lemma freeTracker_delkey_spec : freeTracker_delkey = DelByClid.
 Proof. reflexivity. Qed.
 
+(* finish() forgets the inbound calls that were parsed but never run (fix 30b3768); not part of the reference model,
+   checked on the implementation by the loopback family (oracle/dead-broker-keeps-undelivered-calls) *)
+Lemma finish_drops_undelivered_calls_spec : finish_drops_undelivered_calls = true.
+Proof. reflexivity. Qed.
+
 Lemma finish_clears_spec :
   finish_clears_myReferenceByCLID && finish_clears_myReferenceByPUID = true /\ finish_clears_yourReferenceByCLID = true.
 Proof. split; reflexivity. Qed.
